@@ -226,6 +226,17 @@ def rule_M5(F, R):
         if ends:
             v = ends[0]["args"][2]
             got = "clear" if v == ("A", "std::option::Option", "None", ()) else ("set" if _has(v, lambda z: z[0] == "C" and z[2].endswith("Utc::now")) else "other")
+        # the documented table has two inputs: the new status and whether `end` is present
+        extra = [(a, o) for (a, o, _bb) in p.atoms
+                 if not (a == ("variant", ("P", "status")))
+                 and not (a[0] in ("call", "call#") and any(isinstance(x, str) and x.endswith("TaskData::has") for x in a))
+                 and not (a[0] == "variant" and a[1][0] == "C" and re.search(r"Task::(set_timestamp|set_value)$", a[1][2]))]
+        if extra:
+            R.violation("M5", b["path"], "end-rule-extra-input", "set_status(%s): whether `end` is set or cleared also depends on `%s` = %s; the documented rule looks only at the new status and at whether `end` is present (a completed task without `end` that is deleted must get one)" % (s, show_atom(extra[0][0])[:90], extra[0][1]), w)
+            continue
+        if s in ("Pending", "Recurring", "Completed", "Deleted") and h is None:
+            R.violation("M5", b["path"], "end-not-consulted:%s" % s, "set_status(%s) decides about `end` without looking at whether it is present" % s, w)
+            continue
         if got != want:
             R.violation("M5", b["path"], "end:%s/%s" % (s, h), "set_status(%s) with `end` %s: end is %s, the model says %s" % (s, "present" if h else "absent" if h is False else "?", got or "untouched", want or "untouched"), w)
             continue
